@@ -167,7 +167,10 @@ pub fn std_program(rng: &mut Rng) -> Vec<u8> {
     if rng.chance(1, 3) {
         // the NES platform files of the library: banks, a header and vectors
         // that come out of library files (spans into several of them)
-        let mut s = String::from("#include \"<std>/platform/nes/cpu.asm\"\n#include \"<std>/platform/nes/ines_nrom.asm\"\n#include \"<std>/platform/nes/constants.asm\"\n\n#bank zeropage\nvarTimer: #res 1\n\n#bank prg\nreset:\n");
+        let mut s = String::from("#include \"<std>/platform/nes/cpu.asm\"\n#include \"<std>/platform/nes/ines_nrom.asm\"\n#include \"<std>/platform/nes/constants.asm\"\n\n");
+        // (without the zero-page variable the listing starts inside the library's header file)
+        let zp = rng.chance(1, 2);
+        s.push_str(if zp { "#bank zeropage\nvarTimer: #res 1\n\n#bank prg\nreset:\n" } else { "varTimer = 0x10\n#bank prg\nreset:\n" });
         for _ in 0..rng.range(1, 6) {
             s.push_str(*rng.pick(&["    sei\n", "    cld\n", "    ldx #0x40\n", "    stx APU_FRMCNTR\n", "    inx\n", "    stx PPU_CTRL\n", "    lda varTimer\n", "    jmp reset\n"]));
         }
@@ -796,7 +799,13 @@ pub fn pool_job(seed: u64, k: usize, c: &Corpus) -> Job {
             }
         }
         cmdline::draw_knobs(&mut rng, &mut spec);
-        Job::from_spec(&format!("genprog:{}:{}", root, k), disk, spec)
+        let mut job = Job::from_spec(&format!("genprog:{}:{}", root, k), disk, spec);
+        if root != "on_std.asm" && rng.chance(1, 8) {
+            // a host that registers no built-in library at all (the
+            // program's own root file then gets the lowest handle)
+            job.use_std = false;
+        }
+        job
     } else {
         // mutant (diagnostics in odd places)
         let mut j = crate::c03::draw_job(&mut rng.fork("mut"), c);
@@ -1111,7 +1120,7 @@ pub fn build_plan(rng: &mut Rng, seed: u64, c: &Corpus) -> SimPlan {
         let t = rng.below(nthreads);
         threads[t].jobs.push(j);
         threads[t].reuse.push(rng.chance(1, 3));
-        threads[t].offsets.push(*rng.pick(&[0usize, 0, 0, 1, 2, 5]));
+        threads[t].offsets.push(*rng.pick(&[0usize, 0, 0, 1, 2, 5, 16, 32, 48, 17, 50]));
     }
     threads.retain(|t| !t.jobs.is_empty());
     let mut clock = Vec::new();
